@@ -365,8 +365,9 @@ impl Region {
             false
         };
 
-        let meta = self.meta();
-        let meta_flushed = meta.flush(self.index(), &regions)?;
+        // The metadata guard must not outlive this statement: syncing the file below while
+        // holding it inverts the lock order (file → meta in `punch_holes`).
+        let meta_flushed = self.meta().flush(self.index(), &regions)?;
 
         // Data MUST be durable before metadata — if we crash after metadata sync
         // but before data sync, metadata could reference unwritten data.
